@@ -436,6 +436,7 @@ func (r *run) quiesce() bool {
 	gens := r.n.genCount()
 	lastDrv, sameDrv := "", 0
 	var staleSince time.Time
+	newSecond := false
 	rewinds := 0
 	for it := 0; it < 5000; it++ {
 		if r.n.genCount() != gens {
@@ -478,7 +479,7 @@ func (r *run) quiesce() bool {
 			}
 			reset()
 			inTick = false
-			staleSince = time.Time{}
+			staleSince, newSecond = time.Time{}, false
 			r.lastDetect = time.Now().Unix()
 			continue
 		}
@@ -535,17 +536,25 @@ func (r *run) quiesce() bool {
 		rdRest := r.e.find("rd") != nil && rdTicks >= 2
 		if r.n.genPending(gateWait) {
 			time.Sleep(200 * time.Microsecond)
+			it-- // waiting is not a release
 			continue
 		}
 		if dlRest && rdRest && r.e.find("drv") == nil && (g == nil || len(g.chA) == 0) {
 			// a tracked block that is not canonical must lead to a notification; a detection that collides with an earlier
 			// one of the same second is retried by the detector on a later tick: give it that second
 			if r.staleTracked() {
+				now := time.Now()
 				if staleSince.IsZero() {
-					staleSince = time.Now()
+					staleSince = now
 				}
-				if time.Since(staleSince) < 1500*time.Millisecond {
-					time.Sleep(20 * time.Millisecond)
+				if now.Unix() == staleSince.Unix() {
+					time.Sleep(20 * time.Millisecond) // same second: a tick that starts now may still collide
+					rdTicks, inTick = 0, false
+					it--
+					continue
+				}
+				if !newSecond {
+					newSecond = true // two more full ticks that start in the new second
 					rdTicks, inTick = 0, false
 					continue
 				}
